@@ -1,5 +1,6 @@
 """C15 – what runs inside ONE child process (one PYTHONHASHSEED): listing-order shim, materialisation of the
-package with child-specific (but semantically equal) key order, loading through three entry points, canonical dump.
+package with child-specific (but semantically equal) key order (+ archived streams of repeating components), loading
+through four entry points, canonical dump (incl. what every reference resolves to in the experiment instance).
 """
 from __future__ import annotations
 
